@@ -48,9 +48,9 @@ REQUIRED = [
     "DaeVerif.C13.Props.ep_single_dial",
 ]
 
-STREAMS = ["c13_tq", "c13_trk", "c13_krn", "c13_drn", "c13_key", "c13_ep", "c13_epc", "c13_lock"]
-HARNESS = ["control/c13_test.go", "control/c13_seq_test.go", "control/c13_ep_test.go"]
-RESET = {"c13_tq": "tq reset", "c13_trk": "trk reset", "c13_krn": "krn reset", "c13_drn": "drn reset", "c13_ep": "ep reset", "c13_epc": "ep reset", "c13_lock": "epc reset"}
+STREAMS = ["c13_tq", "c13_trk", "c13_krn", "c13_drn", "c13_key", "c13_ep", "c13_epc", "c13_lock", "c13_hp"]
+HARNESS = ["control/c13_test.go", "control/c13_seq_test.go", "control/c13_ep_test.go", "control/c13_hp_test.go"]
+RESET = {"c13_tq": "tq reset", "c13_trk": "trk reset", "c13_krn": "krn reset", "c13_drn": "drn reset", "c13_ep": "ep reset", "c13_epc": "ep reset", "c13_lock": "epc reset", "c13_hp": "hp reset"}
 
 
 def segment(ops, impl, lineno, reset_prefix):
@@ -60,6 +60,23 @@ def segment(ops, impl, lineno, reset_prefix):
     while start > 0 and not ops[start].startswith(reset_prefix):
         start -= 1
     return [f"{o}  =>  {a}" for o, a in zip(ops[start:i + 1], impl[start:i + 1])]
+
+
+def kernel_entries_left(name, op, im, mo):
+    """the class of the BpfMapBatchDelete finding: trackers agree, but the real kernel map still holds tuples
+    the model has deleted (their last owner released them)"""
+    if name == "c13_ep" and op == "ep kleft":
+        return im.isdigit() and int(im) > 0
+    if name != "c13_krn":
+        return False
+    def parts(line):
+        m = re.match(r"t0\[(.*?)\] k0=(\S+) t1\[(.*?)\] k1=(\S+)$", line)
+        if not m:
+            return None
+        ks = lambda x: set() if x == "-" else set(x.split(","))
+        return (m.group(1), m.group(3)), (ks(m.group(2)), ks(m.group(4)))
+    a, b = parts(im), parts(mo)
+    return bool(a and b and a[0] == b[0] and a[1][0] >= b[1][0] and a[1][1] >= b[1][1])
 
 
 def tq_oracle(ctx, ops, impl):
@@ -172,6 +189,10 @@ def run(ctx):
                 ctx.report(f"{name}: {op}", {"stream": name})
                 continue
             seg = segment(ops, impl, ln, RESET.get(name, "\x00"))
+            if kernel_entries_left(name, op, im, mo):
+                ctx.report(f"kernel conn-state entries outlive their last owner ({name} line {ln}): op `{op}` real `{im}` model `{mo}`",
+                           {"stream": name, "line": ln, "sequence": seg[-400:]}, key="c13-batch-delete-stops-at-missing-key")
+                continue
             ctx.report(f"real code differs from the proved model in {name} at line {ln}: op `{op}` real `{im}` model `{mo}`",
                        {"stream": name, "line": ln, "op": op, "impl": im, "model": mo,
                         "schedule_up_to_here": seg[-1500:],
